@@ -9,6 +9,7 @@ import Emboss.Lemmas.Scope
 import Emboss.Lemmas.ScopeTable
 import Emboss.Lemmas.ScopeVisible
 import Emboss.Lemmas.ScopeMembers
+import Emboss.Lemmas.ScopeSyntax
 namespace Emboss.Scope
 
 /-! ## The visible scopes -/
@@ -757,5 +758,119 @@ theorem C12_self_recursion_counterexample :
     have := hf f (Nat.le_refl _)
     rw [hall f] at this
     cases this
+
+/-! ## Where `module_ir` puts the types written inline (input of everything above) -/
+
+/-- **Placing of inline and anonymous types.**  For every list of type definitions as written
+(any nesting of definitions, inline `struct`/`bits`/`enum` fields and anonymous `bits:`), the
+IR `module_ir` builds — read the way the resolver reads it: every type under the scope made of
+the names of the types it is nested in, every field under the name of its type — is the closed
+form of the spec: a type written as a definition lives where it is written and opens a scope; a
+type written inline lives in the scope its field is written in and opens none, so that
+everything written inside it lives in the nearest enclosing type *written as a definition*;
+fields live in the type they are written in, inline or not.  Order included (it is the order
+`_construct_symbol_tables` meets the names in, which decides which of two duplicates is "the
+original"). -/
+theorem C12_inline_placing (types : List Syn) (host : Path) :
+    flatTypes host (buildModule types) = placedTypesAll host types ∧
+    flatFields host (buildModule types) = placedFieldsAll host types :=
+  ⟨buildAll_types types host, buildAll_fields types host⟩
+
+/-- Corollary: the scope of every type of the IR consists of names of types *written as
+definitions* only — an inline or anonymous type never is the scope of another type (so a
+compiler-made name like `EmbossReservedAnonymousField3` never is part of the canonical name of a
+type). -/
+theorem C12_inline_scopes_explicit (types : List Syn) (host : Path) :
+    ∀ x ∈ flatTypes host (buildModule types),
+      ∃ es, x.1 = host ++ es ∧ ∀ e ∈ es, e ∈ explicitNamesAll types := by
+  rw [(C12_inline_placing types host).1]
+  exact placedAll_scope types host
+
+/-- **Agreement with the language reference, partial.**  The reference describes an inline type
+as *equivalent to* the same type written as a definition in the body of the structure
+(`docTypesAll`).  Full statement: `flatTypes host (buildModule types) = docTypesAll host types`
+for all `types` — **false** (`C12_inline_nesting_counterexample`).  Proved: it holds when no
+inline type contains a type of its own (`ShallowAll`: inline and anonymous types have only plain
+fields; definitions may nest at will). -/
+theorem C12_inline_doc_partial (types : List Syn) (host : Path) (h : ShallowAll types) :
+    flatTypes host (buildModule types) = docTypesAll host types := by
+  rw [(C12_inline_placing types host).1]
+  exact shallowAll_doc types host h
+
+/-- **The anonymous `bits:` of a file get consecutive numbers**, starting after the value the
+counter has, in the order `transform_parse_tree` reaches them (children from the last to the
+first, then the construct): in particular they are pairwise distinct, and so are the numbers of
+different files parsed one after the other (the counter is never reset). -/
+theorem C12_anonymous_numbers (types : List Syn) (c : Nat) :
+    anonNumsAll (numberAll types c).1 = List.range' (c + 1) ((numberAll types c).2 - c) ∧
+    c ≤ (numberAll types c).2 ∧ (anonNumsAll (numberAll types c).1).Nodup := by
+  obtain ⟨h1, h2⟩ := numberAll_nums types c
+  refine ⟨h1, h2, ?_⟩
+  rw [h1]
+  exact List.nodup_range'
+
+/-- `struct Msg:` with an inline `struct  aa:` that contains an inline `enum  kind:` -/
+def exNested : List Syn :=
+  [.node .typeDef "Msg" 0 []
+    [.node .inline "aa" 0 [] [.node .inline "kind" 0 [] [.node .plain "ON" 0 [] []]],
+     .node .plain "zz" 0 [] []]]
+
+/-- **Counterexample to the equivalence the language reference states.**  In
+`struct Msg:  0 [+1]  struct  aa:  0 [+1]  enum  kind:  ON = 1` the rewriting of the reference
+(inline type = definition in the body of the structure its field is in) puts `Kind` into `Aa`:
+`Msg.Aa.Kind`.  `module_ir` puts it into `Msg` (`Msg.Kind`), next to `Aa` — which is why two
+inline structures of one structure cannot both have an inline type of the same name (replayed
+on the real code by the harness, corpus entry "same inline type name in two inline structs").
+The resolver then works on what `module_ir` built; C12's reference theorems are about that. -/
+theorem C12_inline_nesting_counterexample :
+    flatTypes ["m.emb"] (buildModule exNested) =
+      [(["m.emb"], "Msg"), (["m.emb", "Msg"], "Aa"), (["m.emb", "Msg"], "Kind")] ∧
+    docTypesAll ["m.emb"] exNested =
+      [(["m.emb"], "Msg"), (["m.emb", "Msg"], "Aa"), (["m.emb", "Msg", "Aa"], "Kind")] ∧
+    ¬ ShallowAll exNested := by
+  refine ⟨by decide, by decide, ?_⟩
+  simp [exNested, ShallowAll, Shallow, PlainAll]
+
+/-- `struct Foo:` anonymous bits (`a`); `struct  inl:` containing `struct Ex:` (anonymous bits
+`q`), anonymous bits with inline `enum  en:`, field `e`; anonymous bits (`c`).  `struct Bar:`
+anonymous bits (`d`). -/
+def exSyn : List Syn :=
+  [.node .typeDef "Foo" 0 []
+    [.node .anon "" 0 [] [.node .plain "a" 0 [] []],
+     .node .inline "inl" 0
+       [.node .typeDef "Ex" 0 [] [.node .anon "" 0 [] [.node .plain "q" 0 [] []]]]
+       [.node .anon "" 0 [] [.node .inline "en" 0 [] [.node .plain "AA" 0 [] []]],
+        .node .plain "e" 0 [] []],
+     .node .anon "" 0 [] [.node .plain "c" 0 [] []]],
+   .node .typeDef "Bar" 0 [] [.node .anon "" 0 [] [.node .plain "d" 0 [] []]]]
+
+/-- Non-vacuity of `C12_inline_placing`, `C12_inline_scopes_explicit`, `C12_anonymous_numbers`
+(and a test against what the real `module_ir` was observed to build for this text with the
+counter at 0): the last anonymous bits gets number 1, the first one 5; `Inl`, `Ex`, the
+anonymous type 3 and `En` all are direct subtypes of `Foo`; the anonymous type 4 is a subtype of
+`Ex`. -/
+example :
+    (numberAll exSyn 0).2 = 5 ∧
+    flatTypes ["m.emb"] (buildModule (numberAll exSyn 0).1) =
+      [(["m.emb"], "Foo"), (["m.emb", "Foo"], "EmbossReservedAnonymousField5"),
+       (["m.emb", "Foo"], "Inl"), (["m.emb", "Foo"], "Ex"),
+       (["m.emb", "Foo", "Ex"], "EmbossReservedAnonymousField4"),
+       (["m.emb", "Foo"], "EmbossReservedAnonymousField3"), (["m.emb", "Foo"], "En"),
+       (["m.emb", "Foo"], "EmbossReservedAnonymousField2"),
+       (["m.emb"], "Bar"), (["m.emb", "Bar"], "EmbossReservedAnonymousField1")] ∧
+    (flatFields ["m.emb"] (buildModule (numberAll exSyn 0).1)).take 4 =
+      [(["m.emb", "Foo"], "emboss_reserved_anonymous_field_5"), (["m.emb", "Foo"], "inl"),
+       (["m.emb", "Foo"], "emboss_reserved_anonymous_field_2"),
+       (["m.emb", "Foo", "EmbossReservedAnonymousField5"], "a")] := by
+  decide
+
+/-- Non-vacuity of `C12_inline_doc_partial`: `struct Msg:` with a nested definition `Sub` and an
+inline `enum  kind:` is shallow, and both readings give `Msg`, `Msg.Sub`, `Msg.Kind`. -/
+example :
+    let t : List Syn := [.node .typeDef "Msg" 0 [.node .typeDef "Sub" 0 [] []]
+      [.node .inline "kind" 0 [] [.node .plain "ON" 0 [] []]]]
+    ShallowAll t ∧ docTypesAll ["m.emb"] t =
+      [(["m.emb"], "Msg"), (["m.emb", "Msg"], "Sub"), (["m.emb", "Msg"], "Kind")] := by
+  refine ⟨by simp [ShallowAll, Shallow, PlainAll], by decide⟩
 
 end Emboss.Scope
